@@ -440,10 +440,31 @@ class Origins:
         self.T = types_of(repo)
 
     # -- bindings of a local name: list of ("value", expr) | ("elem", iterable, pos) | ("opaque", node)
-    def _bindings(self, f: FuncInfo, name: str) -> list[tuple]:
+    def _bindings(self, f: FuncInfo, name: str, use: ast.AST | None = None) -> list[tuple]:
+        """Bindings of `name` visible at `use`: a comprehension variable is local to its comprehension (and shadows a function
+        level variable of the same name there); without `use` every binding in the function is returned."""
         out: list[tuple] = []
         if isinstance(f.node, ast.Lambda):
             return out
+        scope: ast.AST | None = None  # the comprehension whose variable `name` is at `use`
+        have_use = False
+        if use is not None:
+            try:
+                for a in ancestors(use):
+                    have_use = True
+                    if a is f.node:
+                        break
+                    if isinstance(a, (ast.ListComp, ast.SetComp, ast.GeneratorExp, ast.DictComp)) and any(isinstance(x, ast.Name) and x.id == name for g in a.generators for x in ast.walk(g.target)):
+                        scope = a
+                        break
+            except Exception:  # noqa: BLE001
+                have_use = False
+        comp_of: dict[int, ast.AST] = {}
+        if have_use:
+            for n in own_nodes(f.node):
+                if isinstance(n, (ast.ListComp, ast.SetComp, ast.GeneratorExp, ast.DictComp)):
+                    for g in n.generators:
+                        comp_of[id(g)] = n
 
         def bind_target(tgt: ast.expr, kind: str, src: ast.expr, pos: tuple) -> None:
             if isinstance(tgt, ast.Name):
@@ -469,6 +490,8 @@ class Origins:
             elif isinstance(n, (ast.For, ast.AsyncFor)):
                 bind_target(n.target, "elem", n.iter, ())
             elif isinstance(n, ast.comprehension):
+                if have_use and comp_of.get(id(n)) is not scope:
+                    continue  # variable of another comprehension
                 bind_target(n.target, "elem", n.iter, ())
             elif isinstance(n, ast.NamedExpr):
                 bind_target(n.target, "value", n.value, ())
@@ -478,12 +501,18 @@ class Origins:
                         out.append(("opaque", it.context_expr, ()))
             elif isinstance(n, ast.ExceptHandler) and n.name == name:
                 out.append(("opaque", n, ()))
+        if scope is not None:
+            gens = {id(g) for g in scope.generators}
+            inner = [b for b in out if b[0] == "elem" and any(isinstance(g, ast.comprehension) and id(g) in gens and g.iter is b[1] for g in scope.generators)]
+            return inner or out
         return out
 
     def value(self, f: FuncInfo, e: ast.expr, depth: int = 0, seen: frozenset = frozenset(), pos: tuple = ()) -> list[Leaf]:
         """Leaves of the value of `e` (position `pos` of it, if it is a tuple)."""
         key = (f.fq, id(e), "v", pos)
-        if depth > self.MAX or key in seen:
+        if key in seen:
+            return []  # a cyclic definition (x = f(x)) contributes no further origin
+        if depth > self.MAX:
             return [(f, e, "value")] if not pos else [(f, e, "opaque")]
         seen = seen | {key}
         d = depth + 1
@@ -740,7 +769,7 @@ class Origins:
                     return self.elements(f.outer, it, d, seen, pos)
                 return opaque
             return self._name(f.outer, e, d, seen, pos) if f.outer is not None else opaque
-        binds = self._bindings(f, name)
+        binds = self._bindings(f, name, e)
         if name in f.param_names:
             if binds:
                 return opaque  # re-bound parameter: flow-insensitive view is not sound enough here
@@ -774,7 +803,9 @@ class Origins:
     def elements(self, f: FuncInfo, c: ast.expr, depth: int = 0, seen: frozenset = frozenset(), pos: tuple = ()) -> list[Leaf]:
         """Leaves of the elements of the collection `c` (position `pos` of each element, if elements are tuples)."""
         key = (f.fq, id(c), "e", pos)
-        if depth > self.MAX or key in seen:
+        if key in seen:
+            return []  # xs = [x for x in xs if ..]: no further origin
+        if depth > self.MAX:
             return [(f, c, "elem" if not pos else "opaque")]
         seen = seen | {key}
         d = depth + 1
@@ -892,7 +923,7 @@ class Origins:
                 if name in f.param_names:
                     return stop
                 return self.elements(f.outer, c, d, seen, pos) if f.outer is not None else stop
-            binds = self._bindings(f, name)
+            binds = self._bindings(f, name, c)
             if name in f.param_names:
                 if binds:
                     return stop
@@ -1537,7 +1568,7 @@ def _is_regex_filter(repo: Repo, g: FuncInfo, e: ast.expr, at: ast.AST, depth: i
             it = _lambda_iterable(g)
             return it is not None and g.outer is not None and _all_regex_filters(repo, g.outer, it, depth + 1)
         return g.outer is not None and _is_regex_filter(repo, g.outer, e, g.node, depth + 1)
-    binds = origins(repo)._bindings(g, e.id)
+    binds = origins(repo)._bindings(g, e.id, e)
     if e.id in g.param_names:
         if binds:
             return False
@@ -1595,7 +1626,7 @@ def _all_regex_filters(repo: Repo, g: FuncInfo, c: ast.expr, depth: int = 0, pos
     if isinstance(c, ast.Subscript) and isinstance(c.slice, ast.Slice):
         return _all_regex_filters(repo, g, c.value, depth + 1, pos)
     if isinstance(c, ast.Name) and not isinstance(g.node, ast.Lambda):
-        binds = origins(repo)._bindings(g, c.id)
+        binds = origins(repo)._bindings(g, c.id, c)
         if c.id in g.param_names:
             if binds:
                 return False
@@ -1627,17 +1658,21 @@ def _user_regex(repo: Repo, f: FuncInfo, pat: ast.expr) -> bool:
     the public flag `identifier_is_regex` that selected them: a user-supplied regex, matched against names by design."""
     if isinstance(pat, (ast.JoinedStr, ast.BinOp)):
         return False
-    leaves = origins(repo).value(f, pat)
-    if not leaves:
+    work = list(origins(repo).value(f, pat))
+    if not work:
         return False
-    for g, e, kind in leaves:
-        if kind != "value":
+    done = 0
+    while work:
+        g, e, kind = work.pop()
+        done += 1
+        if kind != "value" or done > 60:
             return False
-        while isinstance(e, ast.Call) and (repo.resolve_name(g.module, e.func) or "") == "re.compile" and e.args:
+        if isinstance(e, ast.Call) and (repo.resolve_name(g.module, e.func) or "") == "re.compile" and e.args:
             sub = origins(repo).value(g, e.args[0])
-            if len(sub) != 1:
+            if not sub:
                 return False
-            g, e, kind = sub[0]
+            work += sub
+            continue
         if not (isinstance(e, ast.Attribute) and e.attr == "identifier"):
             return False
         if not _is_regex_filter(repo, g, e.value, e):
